@@ -574,9 +574,11 @@ impl<B: FA, H: HA<B> + Sync> SubCheck for Elems<B, H> {
     }
     fn strategy(&self, _tier: Tier) -> BoxedStrategy<ElemCase> {
         // mostly short lists (every length around the rate boundaries), and long ones around the sizes at which
-        // an implementation may switch buffers or strategies (2^k - 1, 2^k, 2^k + 1 elements up to 2049)
+        // an implementation may switch buffers or strategies (2^k - 1, 2^k, 2^k + 1 elements up to 2049; byte hashers up to 16385)
         let long = prop::sample::select(vec![63usize, 64, 65, 127, 128, 129, 255, 256, 257, 511, 512, 513, 1023, 1024, 1025, 1535, 1536, 2047, 2048, 2049]);
-        prop_oneof![40 => 0usize..=40, 2 => long, 1 => 41usize..=2100]
+        // byte hashers (cheap) also get lists around 8192 and 16384 elements (64 KiB / 128 KiB of serialized f64 elements)
+        let very_long = if H::refh().is_rescue() { prop::sample::select(vec![2049usize]) } else { prop::sample::select(vec![8191usize, 8192, 8193, 16383, 16384, 16385]) };
+        prop_oneof![80 => 0usize..=40, 4 => long, 2 => 41usize..=2100, 1 => very_long]
             .prop_flat_map(|n| prop::collection::vec(src_strategy::<B>(), n))
             .prop_map(|els| ElemCase { els })
             .boxed()
@@ -587,7 +589,7 @@ impl<B: FA, H: HA<B> + Sync> SubCheck for Elems<B, H> {
         let base: Vec<B> = c.els.iter().map(realise::<B>).collect();
         let residues: Vec<u128> = base.iter().map(model_residue::<B>).collect();
         let n = base.len();
-        obs.label(if n <= 40 { format!("len={n}") } else if n <= 2100 && [63usize, 64, 65, 127, 128, 129, 255, 256, 257, 511, 512, 513, 1023, 1024, 1025, 1535, 1536, 2047, 2048, 2049].contains(&n) { format!("len={n}") } else { "len=41..2100".to_string() });
+        obs.label(if n <= 40 { format!("len={n}") } else if n <= 2100 && [63usize, 64, 65, 127, 128, 129, 255, 256, 257, 511, 512, 513, 1023, 1024, 1025, 1535, 1536, 2047, 2048, 2049].contains(&n) { format!("len={n}") } else if n <= 2100 { "len=41..2100".to_string() } else { format!("len={n}") });
         let noncanon = base.iter().any(|e| e.image() >= B::FP.p);
         if noncanon {
             obs.label("has-non-canonical-internal-value");
@@ -825,6 +827,68 @@ fn enumerate_rounds<H: PermH + Sync>(run: &mut Run) {
     );
 }
 
+// JIVE COMPRESSION: THE FINAL SUMMATION ON ITS OWN
+// ================================================================================================
+
+#[derive(Serialize, Deserialize, Clone, Debug)]
+pub struct JiveCase {
+    pub init: Vec<Src>,
+    pub fin: Vec<Src>,
+}
+
+pub struct JiveSum;
+
+impl SubCheck for JiveSum {
+    type Case = JiveCase;
+    fn name(&self) -> String {
+        "jive-summation".into()
+    }
+    fn cases(&self, tier: Tier) -> u64 {
+        tier.pick(100_000, 2_000_000)
+    }
+    fn watchdog_secs(&self) -> u64 {
+        20
+    }
+    fn rule(&self) -> String {
+        "RpJive64_256::apply_jive_summation(initial, final) on two 8-element states whose limbs are drawn like the permutation sub-check's (boundary residues, boundary internal values, C07's operand sources, uniform): every digest element = initial[i] + initial[4+i] + final[i] + final[4+i] over integers mod p, is canonical (equal under == to the element built from that residue, internal value below p) and the digest survives its own serialization; non-trivial = some internal values of one output add up to p or more without wrapping".into()
+    }
+    fn required_labels(&self, _t: Tier) -> Vec<String> {
+        vec!["internal-sum>=p".into()]
+    }
+    fn strategy(&self, _tier: Tier) -> BoxedStrategy<JiveCase> {
+        (prop::collection::vec(limb_strategy(), 8), prop::collection::vec(limb_strategy(), 8)).prop_map(|(init, fin)| JiveCase { init, fin }).boxed()
+    }
+    fn check(&self, c: &JiveCase, obs: &mut Obs) -> CheckResult {
+        use winter_utils::{Deserializable, Serializable};
+        ensure!(c.init.len() == 8 && c.fin.len() == 8, "harness/width", "state width");
+        let a: Vec<B64> = c.init.iter().map(realise::<B64>).collect();
+        let b: Vec<B64> = c.fin.iter().map(realise::<B64>).collect();
+        let ia: [B64; 8] = a.clone().try_into().expect("8");
+        let ib: [B64; 8] = b.clone().try_into().expect("8");
+        let p = F64.p;
+        let mut want = [0u128; 4];
+        let mut heavy = false;
+        for i in 0..4 {
+            want[i] = (a[i].as_int() as u128 + a[4 + i].as_int() as u128 + b[i].as_int() as u128 + b[4 + i].as_int() as u128) % p;
+            let raw: u128 = [a[i], a[4 + i], b[i], b[4 + i]].iter().map(|e| e.image()).sum();
+            heavy |= raw >= p && raw < (1u128 << 64);
+        }
+        if heavy {
+            obs.label("internal-sum>=p");
+        }
+        obs.nontrivial_if(heavy);
+        let d = catch(|| RpJive64_256::apply_jive_summation(&ia, &ib)).map_err(|pn| Fail::new(format!("jive-summation/{}", pkey(&pn)), pn.msg.clone()))?;
+        let got = <RpJive64_256 as HA<B64>>::to_ref(&d);
+        ensure!(got == Dg::Elems(want), "jive-summation/value", "apply_jive_summation gives {got:?}, the sums over integers mod p are {want:?}");
+        let canon = <RpJive64_256 as HA<B64>>::from_ref(&Dg::Elems(want));
+        ensure!(d == canon && canon == d, "jive-summation/not-canonical", "the digest denotes the right residues {want:?} but is not equal (==) to the digest built from them");
+        ensure!(d.as_elements().iter().all(|e| e.image() < p), "jive-summation/internal-value", "an element of the digest has an internal value that is not below p");
+        let back = <RpJive64_256 as winter_crypto::Hasher>::Digest::read_from_bytes(&d.to_bytes()).map_err(|e| Fail::new("jive-summation/roundtrip-refused", format!("{e:?}")))?;
+        ensure!(back == d, "jive-summation/roundtrip", "the digest is not equal to its own serialization round trip");
+        Ok(())
+    }
+}
+
 pub fn run(run: &mut Run) {
     run.assume("reference hashers: blake3 / sha3 crates over canonical little-endian bytes; textbook Rescue Prime over u128 integers with the published MDS/ARK tables copied as data (alpha*alpha^-1 = 1 mod p-1, MDS*INV_MDS = I and the published permutation vectors re-verified at start-up)");
     run.assume("RpJive64_256 sponge padding: the 1,0,..,0 padding of a partial last block is written over the rate positions (observed behaviour; the docs do not say whether it is added or written)");
@@ -900,4 +964,5 @@ pub fn run(run: &mut Run) {
     run.sub(&Merge::<B64, Rp64_256>(PhantomData));
     run.sub(&Merge::<B62, Rp62_248>(PhantomData));
     run.sub(&Merge::<B64, RpJive64_256>(PhantomData));
+    run.sub(&JiveSum);
 }
